@@ -70,6 +70,26 @@ def variants(spec, which):
                 w = copy.deepcopy(base)
                 w["measurements"][0]["config"]["parameters"].append(lumi(l0, sg))
                 out.append((f"lumi{l0}/{sg}", w))
+        if has_lumi:
+            w = copy.deepcopy(base)
+            lp = lumi(2.0, 0.1)
+            lp["inits"] = [2.3]  # a starting value different from the central value of the constraint
+            w["measurements"][0]["config"]["parameters"].append(lp)
+            out.append(("lumi2.0/0.1,init2.3", w))
+        # a template with a negative yield in one bin (e.g. interference) carrying an MC-statistical uncertainty there
+        for c in base["channels"]:
+            neg = next((s_ for s_ in c["samples"][1:] if any(m_["type"] == "staterror" for m_ in s_["modifiers"])), None)
+            if neg is not None and all(sum(x["data"][b] for x in c["samples"]) - neg["data"][b] > 3.0 for b in range(len(neg["data"]))):
+                w = copy.deepcopy(out[0][1])
+                for c2 in w["channels"]:
+                    for s2 in c2["samples"]:
+                        if c2["name"] == c["name"] and s2["name"] == neg["name"]:
+                            s2["data"][0] = -2.0
+                            for m2_ in s2["modifiers"]:
+                                if m2_["type"] == "histosys":
+                                    m2_["data"] = {k: [v[0] - s2["data"][0] * 0 - (neg["data"][0] + 2.0)] + v[1:] for k, v in m2_["data"].items()}
+                out.append(("negative_bin", w))
+                break
         w = copy.deepcopy(out[0][1])
         w["measurements"][0]["config"]["parameters"].append({"name": "mu", "inits": [1.5], "bounds": [[0.0, 7.0]]})
         scal = [n for n, t in names.items() if t in ("normsys", "histosys", "normfactor") and n != "mu"]
